@@ -32,7 +32,15 @@ def rand_strand(rng, chroms, ends_pool, maxb):
             k = min(len(ends_pool), rng.randint(5, 8))
         ends = sorted(rng.sample(ends_pool, k))
         for i, e in enumerate(ends):
-            s.append([rng.choice(LABELS), c, e, f"{(i + 1) * rng.choice([0.5, 1.25, 3.0, 10.1]):.4g}"])
+            r = rng.random()
+            if r < 0.5:
+                cm = f"{(i + 1) * rng.choice([0.5, 1.25, 3.0, 10.1]):.4g}"
+            elif r < 0.85:
+                # what a simulation writes: interpolated map positions with every digit a float64 needs
+                cm = repr((i + rng.random()) * rng.choice([1.0, 43.078123456789, 1 / 3, 1e-3]))
+            else:
+                cm = rng.choice(["1.5e-07", "85.10775500000001", "0.30000000000000004", "1e-300", "123456.78901234567", "5e-324"])
+            s.append([rng.choice(LABELS), c, e, cm])
     return s
 
 
